@@ -512,6 +512,33 @@ def rand_locpath_for(rng, doc, profile=FULL):
     return ''.join(steps)
 
 
+def rand_fragpath(rng):
+    """a path SimplePathStrategy supports with 2-3 fragments over the names of the deep documents
+    (`a` twice as likely as `b`, so that fragments overlap themselves: `a/a/b`), entered through
+    descendant:: / descendant-or-self::, sometimes with a `self::` step or a final attribute / text() step"""
+    names = ['a', 'a', 'b']
+    out = ''
+    nfr = rng.choice([2, 2, 3])
+    for k in range(nfr):
+        tests = [rng.choice(names) for _ in range(rng.choice([1, 2, 2, 3]))]
+        steps = []
+        for j, t in enumerate(tests):
+            steps.append(t)
+            if rng.random() < 0.07:
+                steps.append('self::' + (t if rng.random() < 0.8 else rng.choice(names)))
+        if k == nfr - 1 and rng.random() < 0.12:
+            steps.append(rng.choice(['text()', 'comment()']))
+        body = '/'.join(steps)
+        if k == 0:
+            lead = rng.choice(['', '', '', 'self::', 'descendant::', '//', 'descendant-or-self::'])
+            out = lead + body
+        else:
+            out += '/' + rng.choice(['descendant::', 'descendant::', 'descendant-or-self::']) + body
+    if rng.random() < 0.1:
+        out += '/@' + rng.choice(ATTR_NAMES)
+    return out
+
+
 def rand_path_for(rng, doc, profile=FULL):
     t = rand_locpath_for(rng, doc, profile)
     while rng.random() < profile.get('union', 0):
